@@ -2207,6 +2207,29 @@ func (s *sim) finishCall() {
 				if !okW {
 					e.Fail("C09", "evidence-missing-witness", "attack detected between primary %d and a witness, but no witness received evidence naming the primary's block", prim)
 				}
+				// The evidence for the primary is built by replaying the accusing witness's trace
+				// against the primary. That replay is only guaranteed to find the divergence when the
+				// accusing witness kept the provider contract "the block returned has the height
+				// requested" (light/provider/http enforces it before the client sees the block). A
+				// witness that answered height h with a block of height h+-1 (fault `raw`/`height`)
+				// yields a trace whose heights do not line up with the primary's block; the replay
+				// then ends with "no divergence" and, as the spec allows, only the attack error and
+				// the witness-side evidence remain.
+				accuserOffContract := false
+				for _, ev := range c.evid {
+					if ev.prov == prim {
+						continue
+					}
+					for _, r := range c.replies {
+						if r.prov == ev.prov && r.blk != nil && r.reqH != 0 && r.blk.h != r.reqH {
+							accuserOffContract = true
+						}
+					}
+				}
+				if !okP && accuserOffContract {
+					e.Count("probe.attack_by_height_lying_witness")
+					break
+				}
 				if !okP {
 					e.Fail("C09", "evidence-missing-primary", "attack detected between primary %d and a witness (both fully responsive), but the primary received no evidence naming the witness's block", prim)
 				}
